@@ -26,6 +26,20 @@ NOTES = {
  "C15-c": "missed at first (no half-close or reset while the body was incomplete); caught after the generator gained peer FIN / reset after the complete head",
  "C20-c": "missed at first (complete TLS configuration only); caught after family `tls` gained incomplete configurations (chain without key, unloadable key, protocol only)",
  "C19-c": "first run: `no-failing-input-found` (the extracted statement demanded at most one headers-parsed and no bytes after the close, the wire was unchanged); after the statement gained 'no headers-parsed notification and no middleware/handler note after the close' (theorem `no_headers_after_close` added): concrete replay",
+ "C01-d": "missed at first (declared lengths of a few bytes only at the socket level); caught after lengths at and beyond 2^31 / 2^32 were added",
+ "C04-d": "every method x targets that only QUrl refuses was added after reading the agent's summary, before the first run (until then such targets came with GET and a few random methods)",
+ "C05-d": "missed at first (the harness always registered redirects before sub-handlers); caught after the harness puts trees together in several orders chosen by the handler id",
+ "C06-d": "missed at first (children were always populated before being attached); caught after the harness also attaches children while empty and populates them afterwards",
+ "C07-d": "missed at first (no inside entry whose name starts with two dots); caught after the scratch tree gained `..hidden`, `..data/`, `.../`",
+ "C08-d": "missed at first; caught after malformed Range headers with a + sign or blanks next to the dash were added to the file-response cases",
+ "C09-d": "missed at first; caught after accounts whose password equals the user name, with a colon-less payload of just that word, were added",
+ "C11-d": "first run: `no-failing-input-found` (the harness bounds the turns of a file request, the endless re-arming showed only as a divergence); after the C11 statement for family `fs` demands that the request ends (close reported) within the granted turns: concrete replay",
+ "C13-d": "missed at first (bodies up to a few KiB); caught after bodies of 70000 / 200000 bytes arriving in one upstream burst followed by the close",
+ "C14-d": "first run: `no-failing-input-found`; after sequential sources that already hold pieces before start(): concrete replay",
+ "C15-d": "missed at first; caught after declared lengths of 2^31 .. 2^40 with only a few body bytes sent",
+ "C16-d": "assignment into an already queried object (mode 4 of family `range`) was added after reading the agent's summary, before the first run",
+ "C19-d": "missed at first (SimTcp, like QTcpSocket, hands out nothing after close()); caught after family `sockl` (a transport whose reading side lingers after close())",
+ "C20-d": "missed at first (every exchange finished within milliseconds); caught after one long-lived exchange (client pauses 11 s / 31 s in the middle of the body) over TLS and over plain TCP",
  "C06-b": "caught on the first run, thanks to the refusal styles (silent / own fragment without close) added to model, spec and harness beforehand",
 }
 rows = []
